@@ -687,28 +687,39 @@ func DependencyGraphThread() {
 
 func MakeTracesDependancyGraph(startEpoch int64, endEpoch int64, myid int64) map[string]map[string]int {
 
-	requestBody := map[string]interface{}{
-		"indexName":     "traces",
-		"startEpoch":    startEpoch,
-		"endEpoch":      endEpoch,
-		"searchText":    "*",
-		"queryLanguage": "Splunk QL",
-	}
-	requestBodyJSON, err := json.Marshal(requestBody)
-	if err != nil {
-		fmt.Printf("MakeTracesDependancyGraph: Error marshaling request body=%v, Error=%v", requestBody, err)
-		return nil
-	}
-	ctx := &fasthttp.RequestCtx{}
-	ctx.Request.SetBody(requestBodyJSON)
-
-	ctx.Request.Header.SetMethod("POST")
-	pipesearch.ProcessPipeSearchRequest(ctx, myid)
-
+	// Page through all the spans of the period: a single request only returns the first page.
+	const pageSize = 1000
 	rawSpanData := structs.RawSpanData{}
-	if err := json.Unmarshal(ctx.Response.Body(), &rawSpanData); err != nil {
-		log.Errorf("MakeTracesDependancyGraph: could not unmarshal json body, err=%v", err)
-		return nil
+	for from := 0; ; from += pageSize {
+		requestBody := map[string]interface{}{
+			"indexName":     "traces",
+			"startEpoch":    startEpoch,
+			"endEpoch":      endEpoch,
+			"searchText":    "*",
+			"queryLanguage": "Splunk QL",
+			"from":          from,
+			"size":          pageSize,
+		}
+		requestBodyJSON, err := json.Marshal(requestBody)
+		if err != nil {
+			fmt.Printf("MakeTracesDependancyGraph: Error marshaling request body=%v, Error=%v", requestBody, err)
+			return nil
+		}
+		ctx := &fasthttp.RequestCtx{}
+		ctx.Request.SetBody(requestBodyJSON)
+
+		ctx.Request.Header.SetMethod("POST")
+		pipesearch.ProcessPipeSearchRequest(ctx, myid)
+
+		pageData := structs.RawSpanData{}
+		if err := json.Unmarshal(ctx.Response.Body(), &pageData); err != nil {
+			log.Errorf("MakeTracesDependancyGraph: could not unmarshal json body, err=%v", err)
+			return nil
+		}
+		rawSpanData.Hits.Spans = append(rawSpanData.Hits.Spans, pageData.Hits.Spans...)
+		if len(pageData.Hits.Spans) < pageSize {
+			break
+		}
 	}
 	spanIdToServiceName := make(map[string]string)
 	dependencyMatrix := make(map[string]map[string]int)
